@@ -9,6 +9,7 @@ import (
 	"seehuhn.de/go/sfnt"
 	"seehuhn.de/go/sfnt/cff"
 	"seehuhn.de/go/sfnt/glyf"
+	"seehuhn.de/go/sfnt/glyph"
 	"seehuhn.de/go/sfnt/header"
 
 	"verif/harness/internal/gen/fontgen"
@@ -405,6 +406,31 @@ func c03fonts(c *mon.Ctx) {
 				}
 			}
 		}
+		if co, isCFF := f.Outlines.(*cff.Outlines); isCFF && !co.IsCIDKeyed() && len(co.Glyphs) >= 259 && k.Index/36%2 == 0 {
+			// glyph names whose string ids form one run of exactly 255, 256 or
+			// 257 consecutive values (custom names, numbered in glyph order),
+			// with glyphs of standard names behind the run
+			run := min(255+k.Index/72%3, len(co.Glyphs)-2)
+			// (the built-in encoding must not depend on the old names)
+			enc := make([]glyph.ID, 256)
+			for g := 1; g <= 10; g++ {
+				enc[64+g] = glyph.ID(g)
+			}
+			co.Encoding = enc
+			std := []string{"space", "exclam", "A", "B", "C", "D", "E", "F", "G", "H"}
+			for i := 1; i < len(co.Glyphs); i++ {
+				switch {
+				case i <= run:
+					co.Glyphs[i].Name = fmt.Sprintf("cst%03d", i)
+				case i-run-1 < len(std):
+					co.Glyphs[i].Name = std[i-run-1]
+				default:
+					co.Glyphs[i].Name = fmt.Sprintf("tail%03d", i)
+				}
+			}
+			k.Class(fmt.Sprintf("cff:custom-name-run=%d", run))
+			desc += fmt.Sprintf(" custom-name-run=%d", run)
+		}
 		out, ok := writeFont(k, f, "Write(F)")
 		if !ok {
 			return
@@ -424,6 +450,27 @@ func c03fonts(c *mon.Ctx) {
 		}
 		k.Class("writer:Write:" + info.Kind)
 		ximageCompare(k, f, info, out, desc)
+		// glyph names of a simple CFF font, as an independent reader finds
+		// them in the charset of the written file (x/image does not decode
+		// CFF glyph names)
+		if co, isCFF := f.Outlines.(*cff.Outlines); isCFF && !co.IsCIDKeyed() && wf != nil && wf.Get("CFF ") != nil {
+			mf, err := cffmini.Parse(wf.Get("CFF ").Data)
+			k.Eval()
+			if err != nil {
+				k.Fail("mismatch", "cff:independent-reader-rejects-table", "the independent CFF reader cannot follow the CFF table of the written file: %v (%s)", err, desc)
+			} else if len(mf.Problems) > 0 {
+				k.Fail("mismatch", "cff:structure:"+mf.Problems[0].Rule, "CFF table of the written file: %s (%s)", mf.Problems[0], desc)
+			} else if mf.NGlyphs == len(co.Glyphs) {
+				for gid, g := range co.Glyphs {
+					name, ok := mf.GlyphName(gid)
+					if !ok || name != g.Name {
+						k.Fail("mismatch", "cff:glyph-name-in-bytes", "glyph %d is named %q in the font and %q (found: %v) in the charset of the written file (%s)", gid, g.Name, name, ok, desc)
+						break
+					}
+				}
+				k.Class("cff:glyph-names-compared")
+			}
+		}
 
 		// the PDF writers
 		buf := &bytes.Buffer{}
@@ -492,7 +539,7 @@ func c03fonts(c *mon.Ctx) {
 			k.Sample(desc + fmt.Sprintf(" file=%d bytes", len(out)))
 		}
 	})
-	c.Require("cff:string-index-data=254", "cff:string-index-data=255", "cff:string-index-data=256", "ximage:vertical-metrics-compared", "ximage:post-header-compared", "ximage:name-strings-compared")
+	c.Require("cff:glyph-names-compared", "cff:custom-name-run=255", "cff:custom-name-run=256", "cff:custom-name-run=257", "cff:string-index-data=254", "cff:string-index-data=255", "cff:string-index-data=256", "ximage:vertical-metrics-compared", "ximage:post-header-compared", "ximage:name-strings-compared")
 	c.Require("writer:Write:glyf", "writer:Write:cff", "writer:Write:cid", "writer:WriteTrueTypePDF", "writer:WriteTrueTypePDF:extra-tables", "writer:WriteOpenTypeCFFPDF",
 		"ximage:cmap-compared", "ximage:simple-outline-compared", "ximage:composite-outline-compared", "ximage:cff-outline-compared", "ximage:name-compared")
 }
